@@ -306,4 +306,7 @@ def run(ck):
     flag_bits(ck, P)
     resume_from_gzindex(ck, P)
     header_crc_once(ck, P)
+    # header handling decides as the reference does
+    from .. import condparity as _cp
+    ck.floor("SIB/ref-conditions", _cp.check(ck, P, "SIB/ref-conditions", only={"inflate.c:inflate", "deflate.c:deflate", "deflate.c:deflateSetHeader", "inflate.c:inflateGetHeader"}), 80)
     ck.assumptions += ["rustc MIR", "arm regions", "host target; K1"]
